@@ -118,7 +118,9 @@ Inductive preq := QDiscovery | QKeys | QAuthorize | QToken | QUserinfo | QIntros
 Inductive rpcall := RAuthURL | RCodeExchange | RUserinfo | RRefresh | REndSession | RRevoke
                   | RClientCredentials | RDeviceAuthz | RGetters | RVerify.
 (* handler values the library hands out; r below is the request (its per-request data) *)
-Inductive hkind := HCodeExchange | HAuthURL | HRefresh | HOPAuthorize.
+Inductive hkind := HCodeExchange | HAuthURL | HRefresh | HOPAuthorize
+                 (* calls on ONE RP / RS / token exchanger overlapping with THEMSELVES, each with its own arguments: *)
+                 | HUserinfo | HIntrospect | HRevoke | HEndSession | HTokenExchange | HDeviceAuthz.
 (* what a request of an identified client asks the provider to do (token endpoint grants, introspection,
    revocation, device authorization); the credential it carries is the client's registered one:
    client secret (basic / post) or a signed JWT assertion (private_key_jwt, jwt-bearer) *)
